@@ -323,6 +323,19 @@ def _big_cases(tier, seed):
         P[i][j] = P[j][i] = 1
     P[8][0] = 1
     out.append(P)
+    # an undirected 13-cycle (every acyclic orientation creates a v-structure: NO extension), and the directed path
+    # 0 -> 1 -> ... -> 11 closed by 11 - 12 - 0 (every orientation of the two edges closes a cycle or adds a collider)
+    pc = 13
+    C13 = [[0] * pc for _ in range(pc)]
+    for k in range(pc):
+        a, b = (5 * k + seed) % pc, (5 * (k + 1) + seed) % pc
+        C13[a][b] = C13[b][a] = 1
+    out.append(C13)
+    Pd = [[0] * pc for _ in range(pc)]
+    for k in range(11):
+        Pd[k][k + 1] = 1
+    Pd[11][12] = Pd[12][11] = Pd[12][0] = Pd[0][12] = 1
+    out.append(Pd)
     # a DAG with astronomically many directed walks (every node has the 6 previous ones - in a scrambled order - as parents):
     # it is its own and only consistent extension
     pb = 200
